@@ -547,11 +547,21 @@ class CFG:
         d = self.dom().get(('n', n.id)) or set()
         return [self.edges[i] for (k, i) in d if k == 'e']
 
-    def facts_at(self, n):
-        """Facts implied by the branch edges that dominate node ``n``."""
+    def facts_at(self, n, _depth=0):
+        """Facts implied by the branch edges that dominate node ``n``.  A fact on a boolean *flag* - a local whose reaching
+        definitions are all the constants True/False, exactly one of them the tested value - also yields the facts that hold where
+        that value was assigned (`found = False; for ..: if c: found = True; break` ... `if found:` carries c)."""
         out = []
         for e in self.dominating_edges(n):
-            out.extend(e.facts())
+            for f in e.facts():
+                out.append(f)
+                if _depth < 2 and isinstance(f.node, ast.Name) and f.op is None and f.text == f.node.id:
+                    src = e.src
+                    defs = self.reaching_defs(src, f.node.id)
+                    if defs and all(isinstance(d.ast, ast.Assign) and isinstance(d.ast.value, ast.Constant) and isinstance(d.ast.value.value, bool) for d in defs):
+                        same = [d for d in defs if d.ast.value.value is f.pol]
+                        if len(same) == 1:
+                            out.extend(self.facts_at(same[0], _depth + 1))
         return out
 
     def fact_keys_at(self, n):
